@@ -133,8 +133,9 @@ class Kernel:
             if base[0] == "array" and lit_int(e["i"]) is not None:
                 return ("scalar", base[1][lit_int(e["i"])])
             if base[0] in ("wchunk", "schunk") and lit_int(e["i"]) is not None:
-                if not 0 <= lit_int(e["i"]) < self.trip_div:
-                    raise LaneError("index %s outside the chunk of %d" % (show(e), self.trip_div))
+                lim = getattr(self, "chunk_div", {}).get(base[0], self.trip_div)
+                if not 0 <= lit_int(e["i"]) < lim:
+                    raise LaneError("index %s outside the chunk of %d" % (show(e), lim))
                 return ("wptr" if base[0] == "wchunk" else "sptr", lit_int(e["i"]))
             raise LaneError("indexing %s" % show(e))
         if k == "bin" and e["op"] == "+":
@@ -347,20 +348,33 @@ class Kernel:
             if x.get("k") == "mcall" and x["name"] == "chunks_exact" and len(x["args"]) == 1 and lit_int(x["args"][0]) is not None and is_path(x["recv"]) and x["recv"]["p"] in self.env:
                 return self.env[x["recv"]["p"]][0], lit_int(x["args"][0]), x["recv"]["p"]
             return None
-        ca, cb = chunked(it["recv"]), chunked(it["args"][0])
+        def plain_iter(x):
+            # ROW.iter(): one packed vector per iteration
+            if x.get("k") == "mcall" and x["name"] == "iter" and not x["args"] and is_path(x["recv"]) and x["recv"]["p"] in self.env:
+                return self.env[x["recv"]["p"]][0], 1, x["recv"]["p"], True
+            return None
+        ca, cb = chunked(it["recv"]) or plain_iter(it["recv"]), chunked(it["args"][0]) or plain_iter(it["args"][0])
         pat = loop["pat"]
-        if not (ca and cb and {ca[0], cb[0]} == {"window", "row"} and ca[1] == cb[1] and pat.get("k") == "ptuple" and len(pat["elems"]) == 2
+        if not (ca and cb and {ca[0], cb[0]} == {"window", "row"} and pat.get("k") == "ptuple" and len(pat["elems"]) == 2
                 and all(p_.get("k") == "pident" for p_ in pat["elems"])):
+            return False
+        wc, sc = (ca, cb) if ca[0] == "window" else (cb, ca)
+        if len(wc) > 3:
+            return False            # the waveform must be walked in chunks
+        if self.scalar and wc[1] != sc[1]:
             return False
         n0, n1 = pat["elems"][0]["name"], pat["elems"][1]["name"]
         wn, sn = (n0, n1) if ca[0] == "window" else (n1, n0)
-        wsrc = ca[2] if ca[0] == "window" else cb[2]
         self.env[wn] = ("wchunk",)
-        self.env[sn] = ("schunk",)
-        self.trip_div = ca[1]
-        self.trip_src = "%s.len()" % wsrc
+        # a packed row walked with .iter() hands out one vector per iteration (`*s`); with chunks_exact(K) a chunk of K vectors (`s[j]`)
+        self.env[sn] = ("sptr", 0) if len(sc) > 3 else ("schunk",)
+        self.chunk_div = {"wchunk": wc[1], "schunk": sc[1]}
+        self.trip_div = wc[1]
+        self.trip_src = "%s.len()" % wc[2]
         self.wvar, self.svar = "<chunk base of %s>" % wn, "<chunk base of %s>" % sn
-        self.strides = {self.wvar: ca[1], self.svar: ca[1]}
+        # both iterators are exact, so the zip runs min(len(w)/W, len(s)/K) times: the stride obligation (K packed vectors cover W samples) and the
+        # pack-shape rule (a row holds len/lanes vectors) make the two counts equal
+        self.strides = {self.wvar: wc[1], self.svar: sc[1]}
         return True
 
     def do_loop(self, loop):
